@@ -186,7 +186,7 @@ pub fn case_for(seed: u64, tier: Tier, run: u64) -> Case {
 }
 
 pub fn run(ctx: &Ctx) -> i32 {
-    let proofs = scaled(ctx.tier.pick(18, 300));
+    let proofs = scaled(ctx.tier.pick(18, 200));
     let n = proofs * CHUNKS;
     let stats = par_run(n, ctx.workers, |i, st| {
         let case = case_for(ctx.seed, ctx.tier, i);
